@@ -140,6 +140,7 @@ pub fn exec(tok: &[&str]) -> String {
         "sk_roundtrip" => crate::keys::op_roundtrip(tok[1].parse().unwrap(), &unhex(tok[2])),
         "keygen_digest" => crate::keys::op_digest(tok[1].parse().unwrap(), &unhex(tok[2])),
         "sk_fields" => crate::c04::op_sk_fields(tok[1].parse().unwrap(), &parse_ints::<i64>(tok[2]), &parse_ints::<i64>(tok[3]), &parse_ints::<i64>(tok[4])),
+        "first_drawn" => crate::keys::op_first_drawn(tok[1].parse().unwrap(), &unhex(tok[2])),
         "first_candidate" => crate::keys::op_first_candidate(tok[1].parse().unwrap(), &unhex(tok[2])),
         // ---- signing (C01, C08, C10) ---------------------------------------------------------------------
         "sign" => crate::sign::op_sign(tok[1].parse().unwrap(), &unhex(tok[2]), &unhex(tok[3]), tok[4].parse().unwrap()),
